@@ -37,7 +37,7 @@ func (l *Lin) Key() string {
 			sb.WriteString(" " + e.coef.Key() + "·" + e.atom.Key())
 		}
 		sb.WriteString("}")
-		l.key = sb.String()
+		l.key = shortKey(sb.String())
 	}
 	return l.key
 }
